@@ -18,11 +18,11 @@ func (a *Anchoring) Spec_getAnchoringApplier(params *FunctionDefinition) Applier
 		if fun.Identifier() == params.Function {
 			return ApplierWithParams{
 				fun:    fun,
-				params: parseFuncParams(fun, params),
+				params: Spec_parseFuncParams(fun, params),
 			}
 		}
 	}
-	existing := a.knownAnchoringAppliersNames()
+	existing := a.Spec_knownAnchoringAppliersNames()
 	panic(fmt.Errorf("anchoring applier function '%s' not found in %v", params.Function, existing))
 }
 
